@@ -70,6 +70,8 @@ FACT_LIBRARY = {
     ('u', 1): [[LST(A('a'), V0)], [LST()], [F('f', V0)]],
     ('e', 0): [[]],
     ('z', 1): [],
+    # facts that hold goals (ground compound terms are shared, not copied, by every use of the fact)
+    ('k', 1): [[F('s', A('a'))], [F('q')], [A('q')], [F('s', V0)]],
 }
 
 RECURSIVE_IDIOMS = [
@@ -170,9 +172,12 @@ class BodyGen:
             name, ar = rng.choice([p for p in self.preds if p[1] >= 1] or [('q', 1)])
             args = [self.arg() for _ in range(ar)]
             return 'call(%s)' % ','.join([name if ar == 1 else '%s(%s)' % (name, ','.join(args[:-1]))] + args[-1:])
-        if k < 0.92:
+        if k < 0.915:
             return 'findall(%s,%s,%s)' % (rng.choice(v), self.call(), rng.choice(v))
-        if k < 0.95:
+        if k < 0.945:
+            # a goal fetched from a fact and called with extra arguments (the goal term outlives the call)
+            return 'k(%s), call(%s,%s)' % ((rng.choice(v),) * 2 + (rng.choice(v),))
+        if k < 0.955:
             return 'm(%s,[%s,b,%s])' % (rng.choice(v), rng.choice(v), rng.choice(v))
         if k < 0.975:
             return 'lnk(%s,%s,%s)' % (rng.choice(['s(s(z))', 's(s(s(s(s(z)))))', 's(s(s(s(s(s(s(z)))))))']), rng.choice(v), rng.choice(v))
@@ -246,11 +251,14 @@ def gen_world(rng, rich=True, natives=True, max_depth=3):
     native = []
     if natives:
         for n, a, rows in facts:
-            if a >= 1 and rng.random() < 0.35:
-                native.append([n, a, rng.choice(['inferred', 'explicit', 'variadic', 'decorated']), rng.random() < 0.5])
+            if rng.random() < 0.35:
+                styles = ['inferred', 'explicit', 'variadic', 'decorated', 'prebuilt', 'explicit-varargs']
+                if n == 'k':
+                    styles += ['prebuilt'] * 4
+                native.append([n, a, rng.choice(styles), rng.random() < 0.5])
     dynamic = []
     for n, a, rows in facts:
-        if rng.random() < 0.2:
+        if rng.random() < (0.5 if n == 'k' else 0.2):
             dynamic.append([n, a, rng.randrange(1, 3)])
     # query
     qa = []
@@ -264,6 +272,11 @@ def gen_world(rng, rich=True, natives=True, max_depth=3):
             qa.append(A(rng.choice('ab')))
         else:
             qa.append(F('f', ['v', i]))
+    if rng.random() < 0.06:
+        # a goal passed in by the caller and called with an extra argument; the query's argument terms are built
+        # once and used for every run, so the goal term outlives each call
+        rules.insert(0, 'p(X,Y) :- call(X,Y).')
+        qa = [rng.choice([F('s', A('b')), F('q'), F('s', ['v', 0]), F('t', A('a'), ['v', 0])]), ['v', 1]]
     prebind = []
     if rng.random() < 0.3:
         prebind.append([['v', rng.randrange(2)], rng.choice([A('a'), A('b'), F('f', ['v', 2]), ['v', 3], I(1)])])
@@ -287,6 +300,13 @@ def make_native(yp, unify, rows, arity, style, yield_value, ctl):
     (the exception object to raise), 'args' (log of argument type names per call)."""
     from . import terms as _TM
     trows = [[_TM.T(x) for x in row] for row in rows]
+    # style 'prebuilt': ground rows are built once, at registration, and reused by every invocation (a Python
+    # fact predicate that keeps a table of terms); rows with variables are still built fresh per invocation
+    prebuilt = {}
+    if style == 'prebuilt':
+        for i_, row in enumerate(trows):
+            if all(_TM.is_ground(t) for t in row):
+                prebuilt[i_] = [_TM.build(yp, t, {}) for t in row]
 
     def impl(*args):
         ctl['calls'] += 1
@@ -299,9 +319,9 @@ def make_native(yp, unify, rows, arity, style, yield_value, ctl):
                 raise ctl['exc']
             if len(args) != arity:
                 return
-            for row in trows:
+            for i_, row in enumerate(trows):
                 vmap = {}
-                terms = [_TM.build(yp, t, vmap) for t in row]
+                terms = prebuilt[i_] if i_ in prebuilt else [_TM.build(yp, t, vmap) for t in row]
 
                 def rec(i):
                     if i == len(args):
@@ -318,6 +338,9 @@ def make_native(yp, unify, rows, arity, style, yield_value, ctl):
             ctl['live'] -= 1
     if style == 'variadic':
         return impl, -1
+    if style == 'explicit-varargs':
+        # a generic `def facts(*args)` registered under an explicit arity (also 0)
+        return impl, arity
     wrappers = {0: lambda: impl(), 1: lambda a: impl(a), 2: lambda a, b: impl(a, b), 3: lambda a, b, c: impl(a, b, c)}
     if style == 'decorated':
         # an ordinary functools.wraps decorator around the predicate; its arity is inferred through __wrapped__
@@ -329,7 +352,7 @@ def make_native(yp, unify, rows, arity, style, yield_value, ctl):
                 yield from f(*a, **kw)
             return wrapper
         return traced(wrappers[arity]), None
-    return wrappers[arity], (None if style == 'inferred' else arity)
+    return wrappers[arity], (None if style in ('inferred', 'prebuilt') else arity)
 
 
 # ------------------------------------------------------------------------------------
